@@ -27,6 +27,7 @@ CONSTANTS
   Matches,                    \* [Regexes \X Scopes -> BOOLEAN]          (re.search)
   Supported,                  \* [CfgAlgs \X QueryOps -> BOOLEAN]        (algorithm's check for that operator)
   HasWeightCfg,               \* [cfg id -> BOOLEAN]: exported op_config carries weight_tensor_config
+  ScopePairs,                 \* pairs <<scope as calibration sees an operator, scope as quantization sees it>> (C10)
   MaxLen,                     \* history bound
   Fixes                       \* "wcfg": from_dict tolerates a missing weight config (F12); "noqcfg": no_quantize rules keep their config on load (F14)
 
@@ -109,6 +110,11 @@ ResolvedIsSupported == \A q \in QueryOps \X Scopes :
 \* C12 at design level: a saved recipe reloads to the same store and resolves identically
 RoundTrip == LET l == LoadAll(Export(rules)) IN l[1] = "ok" /\ l[2] = rules
 RoundTripResolves == LET l == LoadAll(Export(rules)) IN l[1] = "ok" => ResolveAll(l[2]) = ResolveAll(rules)
+
+\* C10: calibration and quantization resolve every operator identically, because the two scope strings of an
+\* operator are matched alike by every regex
+ScopesMatchAlike == \A p \in ScopePairs : \A r \in Regexes : Matches[<<r, p[1]>>] = Matches[<<r, p[2]>>]
+SelectionAgrees == \A p \in ScopePairs : \A op \in QueryOps : Resolve(rules, op, p[1]) = Resolve(rules, op, p[2])
 
 \* ---- emitted once per expanded (store, letter) transition: the spec -> code replay follows these
 Trans == [hist |-> hist, last |-> last, export |-> Export(rules),
